@@ -1652,6 +1652,19 @@ Definition flush_op (sch : schema) (s : sess) : sess * res := lift_unit (flush s
 
 (* Entity.flush(): nothing to do unless the object is created / modified / marked_to_delete; `assert obj._save_pos_ is not None`,
    `assert not cache.saved_objects`; _save_ (principals first); call_after_save_hooks empties saved_objects.  cache.modified stays set. *)
+Definition flushobj_go (sch : schema) (s : sess) (o : oid) (ob : obj) : sess * res :=
+  match o_pos ob with
+  | None => (s, RErr EAssertion)
+  | Some _ =>
+    if s_savedpend s then (s, RErr EAssertion)
+    else match save_obj (S (length (s_objs s))) sch s o [] with
+         | Ok s1 _ => (set_savedpend s1 false, ROk)
+         | Err s1 er => (s1, RErr er)
+         end
+  end.
+
+(* A deleted object flushed on its own runs its DELETE before the UPDATEs of the objects that referred to it; the ON DELETE actions
+   then change their rows first and their optimistic checks (not modelled) fail at the next flush: declined when any row refers to it. *)
 Definition flushobj_op (sch : schema) (s : sess) (h : nat) : sess * res :=
   match hget s h with
   | None => (s, RErr EBadHandle)
@@ -1660,16 +1673,10 @@ Definition flushobj_op (sch : schema) (s : sess) (h : nat) : sess * res :=
     | None => (s, RErr EOther)
     | Some ob =>
       match o_st ob with
-      | SCreated | SModified | SMarked =>
-        match o_pos ob with
-        | None => (s, RErr EAssertion)
-        | Some _ =>
-          if s_savedpend s then (s, RErr EAssertion)
-          else match save_obj (S (length (s_objs s))) sch s o [] with
-               | Ok s1 _ => (set_savedpend s1 false, ROk)
-               | Err s1 er => (s1, RErr er)
-               end
-        end
+      | SCreated | SModified => flushobj_go sch s o ob
+      | SMarked =>
+        if match o_pk ob with Some pk => referenced sch (s_db s) (o_ent ob) pk | None => false end then (mark_declined s, RDecline)
+        else flushobj_go sch s o ob
       | _ => (s, ROk)
       end
     end
